@@ -1067,6 +1067,19 @@ def fields_touched(B, adt):
 CMP_NAMES = ('cmp', 'partial_cmp', 'eq', 'ne', 'lt', 'le', 'gt', 'ge', 'total_cmp')
 
 
+def _tuple_operand(B, op, depth=0):
+    """elements of the tuple literal an operand refers to (through reference chains), else None"""
+    for _ in range(6):
+        o = B.origin(op)
+        if o[0] == 'agg' and o[1].get('ak') == 'tuple':
+            return o[1]['ops']
+        if o[0] == 'ref' and isinstance(o[1], dict) and not [x for x in o[1].get('p', []) if x != '*']:
+            op = {'k': 'cp', 'pl': {'l': o[1]['l']}}
+            continue
+        return None
+    return None
+
+
 def comparator_calls(B):
     """(bb, name, [canon of the two operands], where) for every two-operand comparison in B: comparator method calls,
     the repo's compare_* helpers and primitive comparison operators"""
@@ -1075,6 +1088,12 @@ def comparator_calls(B):
         g, r = callee_of(t)
         nm = (g or '').rsplit('::', 1)[-1]
         if len(t['args']) >= 2 and (nm in CMP_NAMES or nm.startswith('compare_')):
+            ta, tb = _tuple_operand(B, t['args'][0]), _tuple_operand(B, t['args'][1])
+            if ta is not None and tb is not None and len(ta) == len(tb):
+                # (a.x, a.y).cmp(&(b.x, b.y)): the tuple comparison is the lexicographic chain of its element comparisons
+                for i, (x, y) in enumerate(zip(ta, tb)):
+                    out.append((bb, '%s.%d' % (nm, i), [canon(B, x), canon(B, y)]))
+                continue
             out.append((bb, nm, [canon(B, t['args'][0]), canon(B, t['args'][1])]))
     for bb, j, st in B.stmts():
         if st['k'] == '=' and st['rv']['k'] == 'bin' and st['rv']['op'] in ('Eq', 'Ne', 'Lt', 'Le', 'Gt', 'Ge', 'Cmp'):
